@@ -1,5 +1,6 @@
 import Labella.Driver.Parse
 import Labella.Model.LayoutSpec
+import Labella.Model.EngineT
 /-! driver commands `layer` and `force` (C01–C04, C06) -/
 namespace Labella.Driver
 open Labella Labella.Parse Labella.Layout
@@ -161,6 +162,46 @@ def permCmd (f : List String) : Option String :=
     let same := a.length == b.length && a.all (fun x => cnt a x == cnt b x)
     let interchangeable := a.all (fun x => a.all (fun y => x.1 != y.1 || x.2.1 == y.2.1))
     some s!"perm same={okStr same} hyp={if interchangeable then 1 else 0}"
+  | _ => none
+
+end Labella.Driver
+
+namespace Labella.Driver
+open Labella Labella.Parse Labella.Layout
+
+def parseEOp (s : String) : Option EngineT.Op :=
+  match s.splitOn "~" with
+  | ["E", ns, ls, mn, mx, alg, den, sw] => (parseFOpts ns ls mn mx alg den sw).map EngineT.Op.newEngine
+  | ["O", ns, ls, mn, mx, alg, den, sw] => (parseFOpts ns ls mn mx alg den sw).map EngineT.Op.setOptions
+  | ["N", labels] => (parseList "," parseLabel labels).map EngineT.Op.freshNodes
+  | ["S"] => some EngineT.Op.sameNodes
+  | ["C"] => some EngineT.Op.compute
+  | _ => none
+
+/-- `ideal:width:stub:layerIndex:pos:data` -/
+def parseObsT (level : Nat) (s : String) : Option EngineT.ObsT :=
+  match s.splitOn ":" with
+  | [ide, w, st, li, pos, da] => do
+    some { ideal := ← parseRat ide, width := ← parseRat w, stub := ← parseBool st, level := level,
+           layerIndex := ← parseNat li, pos := ← parseRat pos, data := ← parseNat da }
+  | _ => none
+
+def parseObsLayers (s : String) : Option (List (List EngineT.ObsT)) :=
+  (splitList "@" s).zipIdx.mapM (fun p => parseList "," (parseObsT p.2) p.1)
+
+/-- `ehist|ops|obs#obs#…` — a history of operations on real `Force` / `Node` objects (several engines sharing node objects, nodes that carry
+the state of an earlier layout) replayed on the stateful transliteration `Model/EngineT.lean`: the observation after EVERY compute
+(layers as reported by `getLayers()`, every item's data position, width, stub flag, reported layer index, position, payload) must be
+EQUAL (exact mode).  `pure=` additionally evaluates the theorem `C06.computeT_pure` on the model side: each observation equals the pure
+`Layout.compute` of the engine's options and the data of its nodes. -/
+def ehistCmd (f : List String) : Option String :=
+  match f with
+  | [ops, obs] => do
+    let ops ← parseList ";" parseEOp ops
+    let obs ← (if obs.trimAscii.toString == "" then some [] else (obs.splitOn "#").mapM parseObsLayers)
+    let w := EngineT.World.run ops
+    let same := w.outs == obs
+    some s!"ehist same={okStr same} computes={w.outs.length} implcomputes={obs.length} nodes={w.store.size}"
   | _ => none
 
 end Labella.Driver
